@@ -198,7 +198,8 @@ func isValidFlag(s string) bool {
 			}
 		}
 	}
-	return len(s) > 0
+	// a lone "\\" is not "\\" atom: the peer cannot decode it
+	return len(s) > 0 && s != "\\"
 }
 
 func (enc *Encoder) Number(v uint32) *Encoder {
